@@ -205,11 +205,12 @@ class RefTraj:
         hz = d["horizon"]
         self.notes = []        # (origin, message) read-back disagreements found while building
         pv = dict(P.PARAM_VALUES)
+        pv.update(d.get("pvals", {}))
         if param_values:
             pv.update(param_values)
         self.pv = pv
         # horizon
-        if hz in ("Tfree", "bothfree"):
+        if hz in ("Tfree", "bothfree", "Tvar"):
             self.T = float(np.asarray(q["T"]).reshape(-1)[0])
         else:
             self.T = float(pv.get("TT", d["TT"]))
